@@ -1,7 +1,7 @@
 #!/bin/sh
 # tools/verify_mutant.sh <Cxx> <a|b|...>   -- confirm a sub-agent's seeded change in its scratch worktree
 # 1 suite passes with the change; 2 demo fails with it; 3 demo passes without it.
-ID=$1; X=$2; WT=/tmp/wt-$ID; D=/tmp/mut-$ID/$X
+ID=$1; X=$2; WT=/tmp/wt-$ID; D=/tmp/${MUT:-mut}-$ID/$X
 export GOFLAGS=-mod=mod GOPROXY=off
 cd $WT || exit 2
 git checkout -q -- . ; git clean -fdq
